@@ -475,6 +475,60 @@ def run(chk, prog):
     for i in r2:
         chk.check(i["ok"], "R5", i["site"], "(C09/R2) " + i["what"].split("\n")[0][:200], "C09-R2:" + i.get("key", "ok"))
     chk.floor("R5-moment-formulas", len(r2), 8)
+    # ---- R6: the objects a record is fed from belong together ---------------------------------------------------
+    # the impedance written to /Impedance is the one the stored wake potential was computed with, and the file, the fields
+    # and the wake map all describe the same grid: read off the constructor arguments in main
+    def ctor_args(cls):
+        out = []
+        for x in A.walk(mainf["body"]):
+            ce = None
+            if x["k"] == "CXXNewExpr" and (x.get("alloc_type") or "") == cls:
+                ce = [y for y in A.walk(x) if y["k"] == "CXXConstructExpr"]
+            elif x["k"] == "DeclStmt":
+                ce = [A.strip(d["init"], casts=False) for d in x["decls"] if d.get("k") == "VarDecl" and (d.get("ctype") or d.get("type") or "").replace("class ", "") == cls
+                      and "init" in d and A.strip(d["init"], casts=False).get("k") == "CXXConstructExpr"]
+            if ce:
+                c_ = ce[0]
+
+                def nm(a_):
+                    t = A.show(A.strip(a_)).replace(" ", "")
+                    m_ = re.match(r"^(?:std::)?shared_ptr\((\w+)\)$", t)
+                    return m_.group(1) if m_ else t.lstrip("&")
+                out.append((x, dict(zip(c_.get("callee_params", []), [nm(a_) for a_ in c_.get("args", [])]))))
+        return out
+    hf = ctor_args("vfps::HDF5File")
+    efs = ctor_args("vfps::ElectricField")
+    wms = ctor_args("vfps::WakePotentialMap")
+    A.require(len(hf) == 1 and len(efs) >= 2 and len(wms) == 1, "main: constructors of HDF5File / ElectricField / WakePotentialMap not found (%d, %d, %d)" % (len(hf), len(efs), len(wms)))
+    hfa = hf[0][1]
+    # which field variable is which: the one handed to the wake map and to appendPadded is the wake field
+    wake_var = wms[0][1].get("field")
+    field_imp = {}
+    for x, a_ in efs:
+        var = None
+        if x["k"] == "DeclStmt":
+            var = [d["name"] for d in x["decls"] if d.get("k") == "VarDecl"][0]
+        else:
+            for y, lhs, op, rhs in A.assignments_in(mainf["body"]):
+                if x["id"] in {t["id"] for t in A.walk(rhs)}:
+                    var = (A.declref(lhs) or {}).get("name")
+        field_imp[var] = a_
+    site6 = A.loc(mainf, hf[0][0])
+    chk.check(wake_var in field_imp, "R6", A.loc(mainf, wms[0][0]), "the wake map is built from a field constructed in main (%s)" % wake_var, "main:wake-field:%s" % wake_var)
+    padded = {A.show(A.strip(x["args"][0])).replace(" ", "") for x in A.walk(mainf["body"]) if x.get("k") == "CXXMemberCallExpr" and (x.get("callee") or "").endswith("HDF5File::appendPadded")}
+    chk.check(padded == {wake_var}, "R6", site6, "the padded profile / wake potential stored are those of the field the wake map uses (%s)" % sorted(padded), "main:appendPadded-object:%s" % sorted(padded))
+    if wake_var in field_imp:
+        chk.check(hfa.get("imp") == field_imp[wake_var].get("impedance"), "R6", site6,
+                  "the impedance stored in the file (%s) is the one the stored wake potential is computed with (%s)" % (hfa.get("imp"), field_imp[wake_var].get("impedance")),
+                  "main:stored-impedance:%s:%s" % (hfa.get("imp"), field_imp[wake_var].get("impedance")))
+    csr_var = hfa.get("ef")
+    chk.check(csr_var in field_imp and csr_var != wake_var, "R6", site6, "the file takes its frequency axis from the radiation field (%s)" % csr_var, "main:file-field:%s" % csr_var)
+    appended_fields = {A.show(A.strip(x["args"][0])).replace(" ", "").lstrip("&") for x in A.walk(mainf["body"]) if x.get("k") == "CXXMemberCallExpr" and
+                       (x.get("callee_sig") or "").startswith("vfps::HDF5File::append(const vfps::ElectricField")}
+    chk.check(appended_fields == {csr_var}, "R6", site6, "the CSR spectrum/intensity stored are those of the field the file was laid out for (%s)" % sorted(appended_fields),
+              "main:append-field-object:%s" % sorted(appended_fields))
+    grids = {hfa.get("ps"), wms[0][1].get("in")} | {a_.get("ps") for a_ in field_imp.values()}
+    chk.check(grids == {"grid_t1"}, "R6", site6, "file, fields and wake map all describe grid_t1 (%s)" % sorted(str(g_) for g_ in grids), "main:record-grid:%s" % sorted(str(g_) for g_ in grids))
     for key_ in list(mm.eff.memo):
         chk.functions.add(key_[0])
     chk.notes.append("C10: freshness typestate at all append sites x %d invariant cases, block agreement, dataset/accessor/axis tables of HDF5File, cadence. "
